@@ -44,9 +44,16 @@ RouteOk(c, r) ==
   /\ RouteSet(r.new) = ExpectedRoutes(c, r.sender)
   /\ ("from_config" \in DOMAIN r => RouteSet(r.from_config) = ExpectedRoutes(c, r.sender))
   /\ ("queued" \in DOMAIN r => (~r.broadcast /\ RouteSet(r.queued) = ExpectedRoutes(c, r.sender)))
+  (* a round of thousands of updates (keys repeat): every owner other than the sender gets every one of them *)
+  /\ ("big" \in DOMAIN r =>
+        LET Mult(key) == (CHOOSE m \in Range(r.big.mult) : m[1] = key)[2]
+            Got(t, key) == LET H == {g \in Range(r.big.got) : g[1] = t /\ g[2] = key} IN IF H = {} THEN 0 ELSE (CHOOSE g \in H : TRUE)[3]
+        IN /\ \A p \in ExpectedRoutes(c, r.sender) : Got(p[1], p[2]) = Mult(p[2])
+           /\ \A g \in Range(r.big.got) : <<g[1], g[2]>> \in ExpectedRoutes(c, r.sender))
 
 Verdict(c) ==
-  IF "panic" \in DOMAIN c THEN "panic"
+  IF c.t = "xproc" THEN (IF c.p1 = c.here /\ c.p2 = c.here THEN "ok" ELSE "two processes compute different replica lists for the same membership and configuration")
+  ELSE IF "panic" \in DOMAIN c THEN "panic"
   ELSE IF ~Sorted(c.ring_a) \/ ~Sorted(c.ring_b) \/ ~Sorted(c.ring_big) THEN "ring positions are not strictly ordered"
   ELSE IF Range(c.ring_a) # Range(c.ring_b) THEN "the ring depends on the join / leave order"
   ELSE IF \E k \in Range(c.keys) : ~KeyOk(c, k) THEN "replica list differs from Replicas(observed ring)"
